@@ -463,7 +463,7 @@ def _judge(ctx, mode, remote, snap_new, revid, delta, before, detail, taint):
                     problems.setdefault((cls, "exec-bit"), []).append(p)
     for (cls, sym), ps in sorted(problems.items()):
         ok = False
-        ctx.fail("%s:%s" % (kmode, _mismatch_key(delta, ps[0], cls, sym)),
+        ctx.fail("%s:%s" % (kmode, _mismatch_key(delta, ps[0], cls, sym, patterns)),
                  "after %s upload, remote path(s) %r: %s (what the delta did to the path: %s)" % (mode, ps[:4], sym, cls),
                  dict(detail, paths=ps[:10], remote={p: _brief(disk.get(p)) for p in ps[:6]}, tree={p: _brief(exp.get(p)) for p in ps[:6]},
                       flags={p: (delta.of_new(p, True) or delta.of_old(p, True)) for p in ps[:6]} if delta else None))
@@ -480,7 +480,7 @@ def _brief(v):
     return [v[0], (v[1][:40].decode("latin-1") if isinstance(v[1], bytes) else v[1]), v[2]]
 
 
-def _exc_key(e, delta, snap_new, taint):
+def _exc_key(e, delta, snap_new, taint, pats=()):
     """(mechanism key, unspecified) for an exception escaping an upload: exception type, uploader operation in progress, what the
     delta did to that operation's path.  unspecified=True when the remote state of an involved path was don't-care before the upload
     (upload-ignored earlier, or stale after --full): then the exception is counted, not judged."""
@@ -528,6 +528,8 @@ def _exc_key(e, delta, snap_new, taint):
             return "symlink-in-subdirectory:target-not-normalised", False
         return "raised:%s@%s:entry" % (exc, opname), unspecified
     fid = delta.old_at.get(subject) if side == "old" else delta.new_at.get(subject)
+    if opname == "rename_remote" and len(involved) > 1 and pats and _ignored(pats, involved[0]) and subject not in SPECIAL:
+        return "renamed-from-upload-ignored-path", False
     fam = _family(delta, fid, subject, None)
     if fam:
         return fam, (unspecified and fam != "special-file-skipped-by-full-upload")
@@ -592,11 +594,16 @@ def _delta_shapes(delta):
     return [x for x in order if x in found]
 
 
-def _mismatch_key(delta, p, cls, sym):
+def _mismatch_key(delta, p, cls, sym, patterns=()):
     """Family key for a remote/tree difference at path p (closed key space for the known mechanisms), else the detailed key."""
     if delta is None:
         return "%s:%s" % (cls, sym)
     fid = delta.new_at.get(p, delta.old_at.get(p))
+    if cls.startswith("renamed") and p in delta.new_at:
+        oldp = [q for q, f in delta.old_at.items() if f == fid]
+        if oldp and patterns and _ignored(patterns, oldp[0]):
+            # the entry was upload-ignored (never or no longer synchronised) under its old name; the uploader renames whatever is there
+            return "renamed-from-upload-ignored-path"
     fam = _family(delta, fid, p, sym)
     if fam:
         return fam
@@ -678,10 +685,15 @@ def case(ctx):
             npath = {v[3]: q for q, v in new.items()}
             for q, v in old.items():
                 q2 = npath.get(v[3])
-                if v[0] == "directory" and q2 is not None and q2 != q:
+                if q2 is None or q2 == q:
+                    continue
+                if v[0] == "directory":
                     for t in list(taint):
                         if t.startswith(q + "/"):
                             taint.add(q2 + t[len(q):])
+                if _tainted(taint, q) and not _ignored(pats, q):
+                    # ignored under an earlier revision's patterns only: the uploader cannot know, the renamed object stays unspecified
+                    taint.add(q2)
         # ---- documented refusal: going backwards without --overwrite
         if mode == "incr-back":
             try:
@@ -703,7 +715,7 @@ def case(ctx):
         except Exception as e:
             failed = True
             kmode = "full" if mode.startswith("full") else "incr"
-            key, unspecified = _exc_key(e, delta, new, taint)
+            key, unspecified = _exc_key(e, delta, new, taint, pats)
             ctx.hist("raised:%s" % type(e).__name__)
             if unspecified:
                 ctx.hist("not judged: %s on a path whose remote state was unspecified (upload-ignored earlier / stale after --full)" % type(e).__name__)
